@@ -314,6 +314,9 @@ impl Searcher {
                     }
                 }
                 Err(SearchInterrupt) => {
+                    #[cfg(weechess_verif)]
+                    weechess_simrt::probe::interrupt_observed();
+
                     if let Some(x) = transpositions.find(game_state_hash) {
                         if x.evaluation > best_eval {
                             f(StatusEvent::BestMove {
